@@ -44,8 +44,9 @@ Iv(tag, s1, s2, w) ==
     [] tag = "enc" -> <<s1 - w, s2 + 2 * w>>
     [] tag = "nr" -> <<s1 + w, s1 + 3 * w>>
 Pos(iv) == <<Max2(0, iv[1]), iv[2]>>                      \* radial axes
-Pat3 == {<<"in", "in", "in">>, <<"hi", "in", "in">>, <<"in", "lo", "in">>, <<"in", "in", "hi">>, <<"hi", "hi", "in">>, <<"hi", "lo", "hi">>,
+Pat3 == IF Thorough THEN {<<"in", "in", "in">>, <<"hi", "in", "in">>, <<"in", "lo", "in">>, <<"in", "in", "hi">>, <<"hi", "hi", "in">>, <<"hi", "lo", "hi">>,
          <<"out", "in", "in">>, <<"out", "out", "out">>, <<"in", "in", "out">>, <<"enc", "enc", "enc">>, <<"enc", "hi", "in">>, <<"lo", "enc", "enc">>}
+        ELSE {<<"in", "in", "in">>, <<"hi", "in", "in">>, <<"in", "lo", "in">>, <<"hi", "hi", "in">>, <<"hi", "lo", "hi">>, <<"out", "in", "in">>, <<"enc", "enc", "enc">>, <<"enc", "hi", "in">>}
 BoxCell(fam, scene, ch, S, w, pat) ==       \* S = <<<<s1,s2>>, ..>> per axis
   LET iv(k) == Iv(pat[k], S[k][1], S[k][2], w) IN
   Flux(fam, scene, ch, <<iv(1)[1], iv(2)[1], iv(3)[1]>>, <<iv(1)[2], iv(2)[2], iv(3)[2]>>, FFF)
@@ -56,7 +57,7 @@ Cub(A, R, p, pol) == Src("Cuboid", R, p, <<4 * A, 6 * A, 8 * A>>, pol, <<>>)
 Mesh(A, R, p, pol) == Src("TriangularMesh", R, p, <<4 * A, 6 * A, 8 * A>>, pol, <<>>)
 Cyl(A, R, p, pol) == Src("Cylinder", R, p, <<4 * A, 6 * A>>, pol, <<>>)
 SegDims(A) == IF Thorough THEN {<<A, 3 * A, 4 * A, 0, 6>>, <<0, 2 * A, 2 * A, -3, 9>>, <<2 * A, 3 * A, 2 * A, 2, 20>>}
-              ELSE {<<A, 3 * A, 4 * A, 0, 6>>, <<0, 2 * A, 2 * A, -3, 9>>}
+              ELSE IF A = 1 THEN {<<A, 3 * A, 4 * A, 0, 6>>, <<0, 2 * A, 2 * A, -3, 9>>} ELSE {<<A, 3 * A, 4 * A, 0, 6>>}
 Seg(dim, R, p, pol) == Src("CylinderSegment", R, p, dim, pol, <<>>)
 Sph(A, R, p, pol) == Src("Sphere", R, p, <<4 * A>>, pol, <<>>)
 TetV(A) == <<<<0, 0, 0>>, <<12 * A, 0, 0>>, <<3 * A, 12 * A, 0>>, <<3 * A, 3 * A, 12 * A>>>>
@@ -78,7 +79,7 @@ Id0 == CartChart(IdM, Zero3)
 FluxCuboid == UNION {{BoxCell("cuboid", <<Cub(sc[1], IdM, Zero3, P1)>>, Id0, <<<<-2 * sc[1], 2 * sc[1]>>, <<-3 * sc[1], 3 * sc[1]>>, <<-4 * sc[1], 4 * sc[1]>>>>, sc[2], pat)
                        : pat \in Pat3} : sc \in Scales}
 FluxMesh == UNION {{BoxCell("mesh", <<Mesh(sc[1], IdM, Zero3, P2)>>, Id0, <<<<-2 * sc[1], 2 * sc[1]>>, <<-3 * sc[1], 3 * sc[1]>>, <<-4 * sc[1], 4 * sc[1]>>>>, sc[2], pat)
-                       : pat \in {<<"in", "in", "in">>, <<"hi", "in", "in">>, <<"hi", "lo", "hi">>, <<"out", "in", "in">>, <<"enc", "enc", "enc">>}} : sc \in Scales}
+                       : pat \in {<<"in", "in", "in">>, <<"hi", "in", "in">>, <<"hi", "lo", "hi">>, <<"enc", "enc", "enc">>}} : sc \in Scales}
 \* cylindrical cells: radial interval x azimuth interval (15 degree units; full turn) x axial interval
 AzIv == {<<1, 4>>, <<-5, 2>>, <<0, 24>>}
 CylCell(fam, scene, ch, riv, fiv, ziv) == Flux(fam, scene, ch, <<riv[1], fiv[1], ziv[1]>>, <<riv[2], fiv[2], ziv[2]>>, <<FALSE, fiv[2] - fiv[1] = 24, FALSE>>)
@@ -87,9 +88,9 @@ FluxCylinder == UNION {{CylCell("cylinder", <<Cyl(sc[1], IdM, Zero3, P1)>>, CylC
                                 Pos(Iv(rt, 0, 2 * sc[1], sc[2])), f, Iv(zt, -3 * sc[1], 3 * sc[1], sc[2]))
                           : rt \in RadTags, f \in AzIv, zt \in {"in", "hi", "out", "enc"}} : sc \in Scales}
 SegAz(d) == IF Thorough THEN {<<d[4] + 1, d[5] - 1>>, <<d[5] - 1, d[5] + 2>>, <<d[4] - 2, d[4] + 1>>, <<d[5] + 1, d[5] + 2>>, <<d[4] - 1, d[5] + 1>>, <<0, 24>>}
-            ELSE {<<d[5] - 1, d[5] + 2>>, <<d[4] + 1, d[5] - 1>>}
+            ELSE {<<d[5] - 1, d[5] + 2>>}
 SegRad == IF Thorough THEN {"in", "hi", "lo", "out"} ELSE {"hi", "lo"}
-SegAx == IF Thorough THEN {"in", "hi", "out"} ELSE {"in", "hi"}
+SegAx == IF Thorough THEN {"in", "hi", "out"} ELSE {"hi"}
 FluxSegment == UNION {UNION {{CylCell("segment", <<Seg(d, IdM, Zero3, P1)>>, CylChart(IdM, Zero3),
                                 Pos(Iv(rt, d[1], d[2], sc[2])), f, Iv(zt, -(d[3] \div 2), d[3] \div 2, sc[2]))
                           : rt \in SegRad, f \in SegAz(d), zt \in SegAx} : d \in SegDims(sc[1])} : sc \in Scales}
@@ -143,14 +144,15 @@ CircMesh == UNION {BodyRects("mesh", <<Mesh(sc[1], IdM, Zero3, P2)>>, Id0, <<<<-
                                {<<1, 1>>, <<3, -1>>}) : sc \in Scales}
 \* cylindrical charts: (r,z) rectangles at fixed azimuth, (r,phi) sectors at fixed z, (phi,z) patches at fixed r, rings
 Ring(r, z) == <<<<<<r, 0, z>>, <<r, 24, z>>>>>>
-CylLoops(fam, scene, ch, S, w, azs) ==     \* S = <<<<r1, r2>>, -, <<z1, z2>>>>
-  UNION {{Circ(fam, scene, ch, CoordRect(2, f, Iv(t[2], S[3][1], S[3][2], w), Pos(Iv(t[1], S[1][1], S[1][2], w)))) : f \in {0, 1, -7}} : t \in RectTags}
+CylLoops(fam, scene, ch, S, w, azs, fs) ==     \* S = <<<<r1, r2>>, -, <<z1, z2>>>>
+  UNION {{Circ(fam, scene, ch, CoordRect(2, f, Iv(t[2], S[3][1], S[3][2], w), Pos(Iv(t[1], S[1][1], S[1][2], w)))) : f \in fs} : t \in RectTags}
   \cup UNION {{Circ(fam, scene, ch, CoordRect(3, z, Pos(Iv(t, S[1][1], S[1][2], w)), az)) : z \in {S[3][2] - w, S[3][2] + w}, az \in azs} : t \in {"in", "hi", "out"}}
   \cup UNION {{Circ(fam, scene, ch, CoordRect(1, r, az, Iv(t, S[3][1], S[3][2], w))) : r \in {S[1][2] + w} \cup (IF S[1][2] - w > 0 THEN {S[1][2] - w} ELSE {}), az \in azs} : t \in {"in", "hi", "enc"}}
   \cup {Circ(fam, scene, ch, Ring(r, z)) : r \in {S[1][2] + w} \cup (IF S[1][2] - w > 0 THEN {S[1][2] - w} ELSE {}), z \in {1, S[3][2] + w}}
-CircCylinder == UNION {CylLoops("cylinder", <<Cyl(sc[1], IdM, Zero3, P1)>>, CylChart(IdM, Zero3), <<<<0, 2 * sc[1]>>, <<0, 0>>, <<-3 * sc[1], 3 * sc[1]>>>>, sc[2], {<<1, 4>>, <<-5, 2>>}) : sc \in Scales}
+CircCylinder == UNION {CylLoops("cylinder", <<Cyl(sc[1], IdM, Zero3, P1)>>, CylChart(IdM, Zero3), <<<<0, 2 * sc[1]>>, <<0, 0>>, <<-3 * sc[1], 3 * sc[1]>>>>, sc[2], {<<1, 4>>, <<-5, 2>>}, {0, 1, -7}) : sc \in Scales}
 CircSegment == UNION {UNION {CylLoops("segment", <<Seg(d, IdM, Zero3, P2)>>, CylChart(IdM, Zero3), <<<<d[1], d[2]>>, <<0, 0>>, <<-(d[3] \div 2), d[3] \div 2>>>>, sc[2],
-                                       {<<d[4] + 1, d[5] - 1>>, <<d[5] - 1, d[5] + 2>>, <<d[4] - 2, d[5] + 1>>}) : d \in SegDims(sc[1])} : sc \in Scales}
+                                       IF Thorough THEN {<<d[4] + 1, d[5] - 1>>, <<d[5] - 1, d[5] + 2>>, <<d[4] - 2, d[5] + 1>>} ELSE {<<d[5] - 1, d[5] + 2>>},
+                                       IF Thorough THEN {0, 1, -7} ELSE {1}) : d \in SegDims(sc[1])} : sc \in Scales}
 SphLoops(fam, scene, ch, r0, w) ==
   UNION {{Circ(fam, scene, ch, CoordRect(3, f, Pos(Iv(t, 0, r0, w)), pv)) : f \in {0, 5}, pv \in {<<2, 5>>, <<1, 11>>}} : t \in {"in", "hi", "out", "enc"}}   \* (r, theta) at fixed phi
   \cup {Circ(fam, scene, ch, CoordRect(1, r, <<2, 7>>, <<-3, 6>>)) : r \in {r0 + w} \cup (IF r0 - w > 0 THEN {r0 - w} ELSE {})}                              \* (theta, phi) at fixed r
@@ -202,11 +204,19 @@ BodyScale(s) ==
     [] s.cls \in {"Sphere", "Circle"} -> s.dim[1]
     [] s.cls = "Dipole" -> 1
     [] OTHER -> LET b == LocalBox(s) IN SetMax({b.hi[k] - b.lo[k] : k \in 1..3})
+BodyMaxExt(s) == LET b == LocalBox(s) IN Max2(1, SetMax({b.hi[k] - b.lo[k] : k \in 1..3}))
+\* surfaces of s parallel to the cell faces of axis k: coordinate surfaces if adapted, else the faces of its bounding box (cart cells)
+ParSurf(s, ch, k) == IF Adapted(s, ch) THEN Surf(s, ch)[k]
+                     ELSE IF ch.type = "cart" THEN LET b == FrameBox(ch, SrcBox(s)) IN {b.lo[k], b.hi[k]} ELSE {}
 Conditioned(i) ==
   i.law = "circ" \/
   LET ext == {i.hi[k] - i.lo[k] : k \in LinAxes(i.ch)} IN
   /\ SetMax(ext) <= 8 * SetMin(ext)
   /\ \A k \in DOMAIN i.scene : (~Away(i.scene[k], i.ch, i.lo, i.hi) /\ ~Enclosed(i.scene[k], i.ch, i.lo, i.hi, i.full)) => SetMax(ext) <= 4 * BodyScale(i.scene[k])
+  \* no cell face hugs a parallel body surface (gap at least 1/16 of the smaller of cell and body)
+  /\ \A j \in DOMAIN i.scene : Away(i.scene[j], i.ch, i.lo, i.hi) \/
+        \A k \in LinAxes(i.ch) : \A v \in {i.lo[k], i.hi[k]} : \A x \in ParSurf(i.scene[j], i.ch, k) :
+            16 * Abs(v - x) >= Min2(SetMax(ext), BodyMaxExt(i.scene[j]))
 Base == {c \in Candidates : Premise(c) /\ Conditioned(c)}
 Movable(i) == i.fam \in {"lk:polyline", "lk:circle", "lk:coll"}
 Gens == {Rx90, Rz90}
@@ -220,7 +230,7 @@ Move(Q, t) == /\ Movable(inst)
 MaxMoves == IF Thorough THEN 7 ELSE 2          \* 7 >= diameter of the rotation group in these generators + the shift
 Next == \/ \E Q \in Gens : hist.nmv < MaxMoves /\ Move(Q, Zero3) /\ hist' = [hist EXCEPT !.nmv = @ + 1, !.rot = TRUE]
         \/ \E t \in Shifts : ~hist.rot /\ hist.nmv = 0 /\ Move(IdM, t) /\ hist' = [hist EXCEPT !.nmv = 1]
-        \/ /\ inst.law = "circ" /\ hist.sgn = 1
+        \/ /\ inst.law = "circ" /\ hist.sgn = 1 /\ (Thorough \/ Movable(inst))
            /\ inst' = [inst EXCEPT !.edges = ReverseLoop(inst.edges)]
            /\ hist' = [hist EXCEPT !.sgn = -1]
            /\ der' = Derived(inst')
